@@ -27,7 +27,10 @@ CONSTANTS Chars,       \* letters used in rule values and string fields (subset 
           Depth3,      \* BOOLEAN: also every depth-3 tree (not / binary and / binary or) over two leaves
           D_FoldWidth,         \* deviation: length shortcuts use byte lengths taken before lower-casing
           D_ContainerNul,      \* deviation: object/array field is handed to field ops as one NUL byte
-          D_EmptyContainerLen  \* deviation: computed size of an empty object/array is 1, not 2
+          D_EmptyContainerLen, \* deviation: computed size of an empty object/array is 1, not 2
+          M_ShiftOnce,         \* mechanism: value_shift enters the ts_cmp threshold exactly once (FALSE = mutant
+                               \* "shift applied twice", which TLC must reject: DoIf_mutant_shift.cfg)
+          PartsOn              \* the parts of the case space to explore ({} = all)
 
 VARIABLE cs            \* the case: [part, kind ("start" | "bucket" | "rule" | "events"), b, rule]
 
@@ -110,13 +113,26 @@ HasEmptyContainer(v) ==
      field op : [op, path, cs, vals]     cs: 0 = case_sensitive:false, 1 = true, 2 = omitted (= true)
      regex    : [op |-> "regex", path, cs, res]
      length   : [op, path, cmp, value]   op in byte_len_cmp / array_len_cmp / int_val_cmp
-     ts_cmp   : [op, path, cmp, value, shift, now, upd]   integer seconds; format "unixtime"
+     ts_cmp   : [op, path, cmp, value, shift, now, upd, unit]   format "unixtime"
+                unit "s": value / shift in seconds, event times are small absolute numbers (1970), `now` is
+                          only known to be far later;
+                unit "m": `value: now` with value_shift in MINUTES (rendered as hours), event times are given
+                          relative to the moment of the replay ("nowstr" values), see NowBand
      check    : [op |-> "check_type", path, types]
    Inner nodes: [op in and/or/not, args]                                                         *)
 StrOps  == {"equal", "contains", "prefix", "suffix", "contains_any"}
 LenOps  == {"byte_len_cmp", "array_len_cmp", "int_val_cmp"}
 LogOps  == {"and", "or", "not"}
 Now     == 1000          \* "now": later than every event time in scope, whatever the shift
+(* `value: now`: "Actual cmp value in that case is now + value_shift + update_interval", where `now` is refreshed
+   every update_interval.  Relative to the moment at which the driver renders the events, the documented
+   threshold therefore lies in  value_shift + [0, update_interval + (time between rendering and the check)].
+   update_interval is 10s or 1m in scope and the driver bounds the replay to 8 minutes after rendering, so the
+   threshold is within value_shift + [0, 9] minutes.  Events closer than NowBand minutes to value_shift are not
+   judged; the events in scope are 30 minutes or more away from every threshold, the shifts are whole hours. *)
+NowBand == 20
+NowStr(off) == [k |-> "nowstr", off |-> off]      \* a string field: unixtime of (rendering moment + off minutes)
+AbsInt(x) == IF x < 0 THEN -x ELSE x
 Sens(l) == l.cs # 0
 
 (* ---- the documented meaning, declaratively ---- *)
@@ -171,7 +187,9 @@ DeclLeaf(l, fv) ==
     [] l.op = "int_val_cmp" ->
          IF fv.k = "num" THEN TV(Cmp(l.cmp, fv.n, l.value)) ELSE "U"          \* only the name documents it
     [] l.op = "ts_cmp" ->
-         IF fv.k = "str" /\ Parsable(fv.s)
+         IF fv.k = "nowstr"
+           THEN IF AbsInt(fv.off - l.shift) > NowBand THEN TV(Cmp(l.cmp, fv.off, l.shift)) ELSE "U"
+         ELSE IF fv.k = "str" /\ Parsable(fv.s)
            THEN TV(Cmp(l.cmp, DecVal(fv.s), (IF l.now THEN Now ELSE l.value) + l.shift))
            ELSE "F"                                    \* no field / not a string / not parsable
     [] l.op = "check_type" ->
@@ -269,9 +287,12 @@ ImplLeaf(l, fv) ==
          ( CASE fv.k = "num" -> TV(Cmp(l.cmp, fv.n, l.value))
              [] fv.k = "str" -> IF Parsable(fv.s) THEN TV(Cmp(l.cmp, DecVal(fv.s), l.value)) ELSE "?"
              [] OTHER -> "F" )
-    [] l.op = "ts_cmp" ->
-         IF fv.k = "str" /\ Parsable(fv.s)
-           THEN TV(Cmp(l.cmp, DecVal(fv.s), (IF l.now THEN Now ELSE l.value) + l.shift))
+    [] l.op = "ts_cmp" ->          \* rhs = (now + update_interval | const); rhs += value_shift
+         LET sh == IF M_ShiftOnce THEN l.shift ELSE 2 * l.shift IN
+         IF fv.k = "nowstr"
+           THEN IF AbsInt(fv.off - sh) > NowBand THEN TV(Cmp(l.cmp, fv.off, sh)) ELSE "?"
+         ELSE IF fv.k = "str" /\ Parsable(fv.s)
+           THEN TV(Cmp(l.cmp, DecVal(fv.s), (IF l.now THEN Now ELSE l.value) + sh))
            ELSE "F"
     [] l.op = "check_type" -> DeclLeaf(l, fv)      \* one closure per listed type, first hit wins
 
@@ -339,9 +360,9 @@ EventsR == EventsF
 TypeNames == {"obj", "object", "arr", "array", "num", "number", "str", "string", "null", "nil"}
 RulesL ==
   {[op |-> o, path |-> PF, cmp |-> c, value |-> n] : o \in LenOps, c \in CmpOps, n \in 0..10}
-  \cup {[op |-> "ts_cmp", path |-> PF, cmp |-> c, value |-> v, shift |-> sh, now |-> FALSE, upd |-> 0] :
+  \cup {[op |-> "ts_cmp", path |-> PF, cmp |-> c, value |-> v, shift |-> sh, now |-> FALSE, upd |-> 0, unit |-> "s"] :
           c \in CmpOps, v \in {2, 12}, sh \in {-1, 0, 1}}
-  \cup {[op |-> "ts_cmp", path |-> PF, cmp |-> c, value |-> 0, shift |-> sh, now |-> TRUE, upd |-> u] :
+  \cup {[op |-> "ts_cmp", path |-> PF, cmp |-> c, value |-> 0, shift |-> sh, now |-> TRUE, upd |-> u, unit |-> "s"] :
           c \in CmpOps, sh \in {-1, 0}, u \in {0, 1}}
   \cup {[op |-> "check_type", path |-> PF, types |-> <<t>>] : t \in TypeNames}
   \cup {[op |-> "check_type", path |-> PF, types |-> <<t, u>>] : t \in TypeNames, u \in TypeNames}
@@ -392,7 +413,7 @@ PoolSeq == <<
   [op |-> "prefix", path |-> PF, cs |-> 0, vals |-> <<<<1>>, <<5, 5>>>>],
   [op |-> "check_type", path |-> PG, types |-> <<"num">>],
   [op |-> "int_val_cmp", path |-> PG, cmp |-> "eq", value |-> 7],
-  [op |-> "ts_cmp", path |-> PG, cmp |-> "lt", value |-> 12, shift |-> 0, now |-> FALSE, upd |-> 0] >>
+  [op |-> "ts_cmp", path |-> PG, cmp |-> "lt", value |-> 12, shift |-> 0, now |-> FALSE, upd |-> 0, unit |-> "s"] >>
 Pool(n) == {PoolSeq[i] : i \in 1..n}
 Logic(S) == {[op |-> "not", args |-> <<x>>] : x \in S}
             \cup {[op |-> o, args |-> <<x>>] : o \in {"and", "or"}, x \in S}
@@ -407,11 +428,18 @@ EventsT == SetToSeq(EvT({Abs, Str(<<1>>), Str(<<2>>), Str(<<5>>)},
 RulesT3 == IF Depth3 THEN LET P == Pool(2) IN Logic2(P \cup Logic2(P \cup Logic2(P))) ELSE {}
 EventsT3 == SetToSeq(EvT({Abs, Str(<<1>>)}, {Abs, Num(7), Num(12)}))
 
-Parts == {"F", "R", "L", "P", "T", "T3"}
+\* part N: ts_cmp against `now` with value_shift of hours, on event times placed around the moment of the replay
+RulesN == {[op |-> "ts_cmp", path |-> PF, cmp |-> c, value |-> 0, shift |-> sh, now |-> TRUE, upd |-> u, unit |-> "m"] :
+             c \in CmpOps, sh \in {-60, 0, 60}, u \in {0, 2}}
+EventsN == SetToSeq(EvOf({NowStr(o) : o \in {-150, -90, -30, 30, 90, 150}}
+                         \cup {Abs, Nul, Num(7), Str(<<1>>), Str(<<>>), Obj(<<>>)}))
+
+AllParts == {"F", "R", "L", "P", "T", "T3", "N"}
+Parts == IF PartsOn = {} THEN AllParts ELSE PartsOn
 RulesOf(p) == CASE p = "F" -> RulesF [] p = "R" -> RulesR [] p = "L" -> RulesL
-                [] p = "P" -> RulesP [] p = "T" -> RulesT [] p = "T3" -> RulesT3
+                [] p = "P" -> RulesP [] p = "T" -> RulesT [] p = "T3" -> RulesT3 [] p = "N" -> RulesN
 EventsOf(p) == CASE p = "F" -> EventsF [] p = "R" -> EventsR [] p = "L" -> EventsL
-                 [] p = "P" -> EventsP [] p = "T" -> EventsT [] p = "T3" -> EventsT3
+                 [] p = "P" -> EventsP [] p = "T" -> EventsT [] p = "T3" -> EventsT3 [] p = "N" -> EventsN
 
 -----------------------------------------------------------------------------
 NoRule == [op |-> "none"]
@@ -424,8 +452,9 @@ RuleSeqL == SetToSeq(RulesL)
 RuleSeqP == SetToSeq(RulesP)
 RuleSeqT == SetToSeq(RulesT)
 RuleSeqT3 == SetToSeq(RulesT3)
+RuleSeqN == SetToSeq(RulesN)
 RuleSeqOf(p) == CASE p = "F" -> RuleSeqF [] p = "R" -> RuleSeqR [] p = "L" -> RuleSeqL
-                  [] p = "P" -> RuleSeqP [] p = "T" -> RuleSeqT [] p = "T3" -> RuleSeqT3
+                  [] p = "P" -> RuleSeqP [] p = "T" -> RuleSeqT [] p = "T3" -> RuleSeqT3 [] p = "N" -> RuleSeqN
 
 Init == cs = [part |-> "-", kind |-> "start", b |-> 0, rule |-> NoRule]
 Next ==
